@@ -56,7 +56,7 @@ def run_group(chk, prop, tier, seed, alias=None):
     rng = random.Random(seed)
     for ci, cfg in enumerate(groupfam.CONFIGS):
         wd = tlc.workdir("%s-%s-group-%d" % (prop, tier, ci))
-        depth = 16 if thorough else 13
+        depth = 60 if thorough else 24
         defs, lines = design_cfg(cfg, depth)
         res = tlc.model_check(wd, "MC_Group", "Group", defs, lines, timeout=2400).check()
         chk.add_model("Group[%s]" % cfg["name"], res, dict(cfg, MaxDepth=depth),
